@@ -4,7 +4,7 @@
 //! with no / empty / populated block 3 and block 5 (tags the header parsers keep and tags they drop).  Every accepted text:
 //! m1 = parse(text); t1 = m1.to_mt_message(); m2 = parse(t1) must succeed; to_value(m2) == to_value(m1) (headers, trailer,
 //! every field value); m2.to_mt_message() == t1 byte for byte.
-use crate::fields::canon;
+use crate::fields::{canon, no_numbers};
 use crate::report::{Report, hex};
 use crate::types::SUPPORTED;
 use crate::{Opts, mgen, rng::Rng, tok, with_mt};
@@ -28,11 +28,11 @@ fn one<T: SwiftMessageBody + serde::Serialize + 'static>(rep: &mut Report, code:
     let second = std::panic::catch_unwind(move || SwiftParser::parse::<T>(&t1c).map(|m| (m.to_mt_message(), serde_json::to_value(&m).unwrap_or(Value::Null))).map_err(|e| format!("{e}")));
     match second {
         Err(_) => rep.fail(&format!("reparse_panicked|MT{code}|{class}"), wit("re-parsing the serialised message panics", json!({"serialised": t1}))),
-        Ok(Err(e)) => rep.fail(&format!("reparse_rejected|MT{code}|{}", if crate::fmt::beyond_f64(text) { "f64-precision".to_string() } else { site_of(&e) }), wit("the serialised message is rejected", json!({"serialised": t1, "error": e}))),
+        Ok(Err(e)) => rep.fail(&format!("reparse_rejected|MT{code}|{}", { let site = site_of(&e); if crate::fmt::beyond_f64(text) && AMOUNT_TAGS.contains(&site.as_str()) { "f64-precision".to_string() } else { site } }), wit("the serialised message is rejected", json!({"serialised": t1, "error": e}))),
         Ok(Ok((t2, j2))) => {
             if canon(&j2) != canon(&j1) {
                 let part = ["basic_header", "application_header", "user_header", "trailer", "fields"].iter().find(|k| j1.get(**k).map(canon) != j2.get(**k).map(canon)).copied().unwrap_or("?");
-                rep.fail(&format!("value_changed|MT{code}|{}", if crate::fmt::beyond_f64(text) { "f64-precision" } else { part }), wit("the second parse differs from the first", json!({"part": part, "first": j1.get(part), "second": j2.get(part), "serialised": t1})));
+                rep.fail(&format!("value_changed|MT{code}|{}", if crate::fmt::beyond_f64(text) && no_numbers(&j1) == no_numbers(&j2) { "f64-precision" } else { part }), wit("the second parse differs from the first", json!({"part": part, "first": j1.get(part), "second": j2.get(part), "serialised": t1})));
             } else if t2 != t1 {
                 rep.fail(&format!("not_fixed_point|MT{code}|{class}"), wit("the second serialisation differs from the first", json!({"first": t1, "second": t2})));
             }
@@ -41,10 +41,20 @@ fn one<T: SwiftMessageBody + serde::Serialize + 'static>(rep: &mut Report, code:
     true
 }
 
+/// tags whose value holds an amount or a rate (an f64 in the library)
+const AMOUNT_TAGS: &[&str] = &["19", "32A", "32B", "32C", "32D", "33B", "34F", "36", "37H", "60F", "60M", "61", "62F", "62M", "64", "65", "71F", "71G", "90C", "90D"];
+
 fn site_of(e: &str) -> String {
-    // the tag named by the error, if any
-    let t: String = e.split("field ").nth(1).map(|s| s.chars().take_while(|c| c.is_ascii_alphanumeric()).collect()).unwrap_or_default();
-    if t.is_empty() { "other".into() } else { t }
+    // the tag named by the error, if any: `Field: 64,` / `field 64` / `Field 32A`
+    for key in ["Field: ", "field: ", "Field ", "field "] {
+        for part in e.split(key).skip(1) {
+            let t: String = part.chars().take_while(|c| c.is_ascii_alphanumeric()).collect();
+            if t.chars().next().is_some_and(|c| c.is_ascii_digit()) {
+                return t;
+            }
+        }
+    }
+    "other".into()
 }
 
 pub fn run(o: &Opts) -> Report {
@@ -63,23 +73,49 @@ pub fn run(o: &Opts) -> Report {
     let per_type = if o.thorough() { 500 } else { 60 };
     let b3s = ["", "{3:}", "{3:{108:MUR12345}}", "{3:{999:PRIVATE}}", "{3:{113:URGT}{108:REF1}{121:180f1e65-90e0-44d5-a49a-92b55eb3025f}}", "{3:{103:TGT}{119:STP}{165:/ABC/INFO}{433:/AOK/}{434:/FPO/}}",
                "{3:{423:18071715301204}{106:120811BANKBEBBAXXX2222123456}{424:PQAB1234}{111:001}{115:121413 121413 DE BANKDECDA123}}"];
-    let b5s = ["", "{5:}", "{5:{CHK:123456789ABC}}", "{5:{PDE:}}", "{5:{MAC:00000000}{CHK:24857F4599E7}{TNG:}}", "{5:{CHK:123456789ABC}{DLM:}}"];
+    let b5s = ["", "{5:}", "{5:{CHK:123456789ABC}}", "{5:{PDE:}}", "{5:{MAC:00000000}{CHK:24857F4599E7}{TNG:}}", "{5:{CHK:123456789ABC}{DLM:}}",
+               "{5:{CHK:123456789ABC}{DLM}}", "{5:{TNG}}", "{5:{MAC:00000000}{CHK:24857F4599E7}{TNG}{DLM}}"];
     for &code in SUPPORTED.iter() {
         let Some(g) = grammars.get(&code) else { continue };
+        let loose = mgen::loosen(g);
         let mut made = 0;
         let mut tries = 0;
         while made < per_type && tries < per_type * 5 {
             tries += 1;
-            let gm = mgen::generate(code, g, &mut rng, &pool);
+            // every other message from the layout with the generator-only conventions (`Og`, `O~`) read as plain optional
+            let gm = mgen::generate(code, if tries % 2 == 0 { &loose } else { g }, &mut rng, &pool);
             let eol = if rng.chance(1, 3) { "\r\n" } else { "\n" };
             let body = tok::render(&gm.chunks, eol, false);
-            let b3 = b3s[rng.below(b3s.len())];
-            let b5 = b5s[rng.below(b5s.len())];
-            let app = if rng.chance(1, 4) { format!("O{:03}1200240101BANKDEFFAXXX00000000002401011201N", code) } else { format!("I{:03}BANKDEFFXXXXN", code) };
-            let text = format!("{{1:F01BANKBEBBAXXX0000000000}}{{2:{app}}}{b3}{{4:{eol}{}{eol}-}}{b5}", body.trim_end_matches(['\n', '\r']));
+            // half of the envelopes from the fixed list, half generated (any subset of the block-3 / block-5 tags in any order, headers
+            // of every documented shape)
+            let generated = rng.chance(1, 2);
+            let b3 = if generated { crate::c10::gen_b3_text(&mut rng) } else { b3s[rng.below(b3s.len())].to_string() };
+            let b5 = if generated { crate::c10::gen_b5_text(&mut rng) } else { b5s[rng.below(b5s.len())].to_string() };
+            let app = if generated { crate::c10::gen_b2(&mut rng, &format!("{code:03}")) } else if rng.chance(1, 4) { format!("O{:03}1200240101BANKDEFFAXXX00000000002401011201N", code) } else { format!("I{:03}BANKDEFFXXXXN", code) };
+            let b1 = if generated { crate::c10::gen_b1(&mut rng) } else { "F01BANKBEBBAXXX0000000000".to_string() };
+            let text = format!("{{1:{b1}}}{{2:{app}}}{b3}{{4:{eol}{}{eol}-}}{b5}", body.trim_end_matches(['\n', '\r']));
             let cls = format!("b3={} b5={}", b3.len().min(9), b5.len().min(9));
             if with_mt!(code, T => one::<T>(&mut rep, code, &text, &cls), false) {
                 made += 1;
+            }
+            // the property speaks about every ACCEPTED text, not only the documented layouts: texts with one field removed / a
+            // field copied to another place / two fields exchanged; whatever the library still accepts must round-trip as well
+            let nmut = if o.thorough() { 6 } else { 3 };
+            for _ in 0..nmut {
+                if gm.chunks.len() < 2 { break; }
+                let mut ch = gm.chunks.clone();
+                let kind = rng.below(4);
+                let a = rng.below(ch.len());
+                let b = rng.below(ch.len());
+                let mclass = match kind {
+                    0 => { ch.remove(a); "mut-remove" }
+                    1 => { let c = ch[a].clone(); ch.insert(b, c); "mut-copy" }
+                    2 => { ch.swap(a, b); "mut-swap" }
+                    _ => { let c = ch.remove(a); let b2 = b.min(ch.len()); ch.insert(b2, c); "mut-move" }
+                };
+                let body = tok::render(&ch, eol, false);
+                let text = format!("{{1:{b1}}}{{2:{app}}}{b3}{{4:{eol}{}{eol}-}}{b5}", body.trim_end_matches(['\n', '\r']));
+                with_mt!(code, T => one::<T>(&mut rep, code, &text, mclass), false);
             }
         }
         rep.tally(&format!("made:MT{code}:{made}"));
